@@ -5,6 +5,7 @@ pub mod c04;
 pub mod c09;
 pub mod c13;
 pub mod common;
+pub mod par;
 
 use crate::core::{Ctx, Outcome, Viol, VERIF_ROOT};
 
@@ -21,6 +22,8 @@ pub fn all() -> Vec<Prop> {
         Prop { id: "C02", level: "exploration", run: c02::run, replay: c02::replay },
         Prop { id: "C03", level: "exploration", run: c03::run, replay: c03::replay },
         Prop { id: "C04", level: "exploration", run: c04::run, replay: c04::replay },
+        Prop { id: "C05", level: "exploration", run: par::run_c05, replay: par::replay },
+        Prop { id: "C06", level: "fault_enumeration", run: par::run_c06, replay: par::replay },
         Prop { id: "C09", level: "exploration", run: c09::run, replay: c09::replay },
         Prop { id: "C13", level: "exploration", run: c13::run, replay: c13::replay },
     ]
@@ -31,8 +34,11 @@ pub fn find(id: &str) -> Option<Prop> {
 }
 
 /// Internal sub-commands (executor children etc.).
-pub fn internal(_cmd: &str, _rest: &[String]) -> Option<i32> {
-    None
+pub fn internal(cmd: &str, _rest: &[String]) -> Option<i32> {
+    match cmd {
+        "exec-sched" => Some(par::executor_main()),
+        _ => None,
+    }
 }
 
 /// Replays every committed `replays/<id>/regress-*.json` before the search.
@@ -67,7 +73,9 @@ pub fn run_regressions(ctx: &Ctx, p: &Prop) {
 }
 
 /// Scheduled part of C03 (hashing-thread interleavings); filled in by the scheduler module.
-pub fn c03_sched_part(_ctx: &Ctx) {}
-pub fn c03_sched_replay(_case: serde_json::Value) -> Result<Outcome, String> {
-    Err("scheduled replay not available".into())
+pub fn c03_sched_part(ctx: &Ctx) {
+    par::c03_sched_part(ctx)
+}
+pub fn c03_sched_replay(case: serde_json::Value) -> Result<Outcome, String> {
+    par::replay_value(case)
 }
